@@ -42,6 +42,7 @@ class Ctx:
         self.rule = ""
         self.obl = []                # obligation reports
         self.known_seen = []
+        self.coqchk = []
         self.vm_pool = {}            # op -> [(cmd, model output)] sample for the in-Coq cross-check of extraction
 
     # -- bookkeeping ---------------------------------------------------------
@@ -127,6 +128,12 @@ def main():
         # proof obligations
         for vf in mod.PROPFILES:
             ctx.obl.append(common.obligations(ctx.bld, vf))
+        if tier == "thorough" and os.environ.get("VERIF_NO_COQCHK") != "1":
+            for vf in mod.PROPFILES:
+                ck = common.coqchk(vf)
+                ctx.coqchk.append(ck)
+                if not ck["ok"]:
+                    ctx.disagreements.append({"cmd": ck["cmd"], "model": "", "impl": ck["detail"][-300:] + " " + str(ck["bad"])[:300], "label": "coqchk"})
         # correspondence + search on the implementation
         mod.run(ctx)
     except Exception:  # the machinery itself failed: fail closed
@@ -249,6 +256,7 @@ def main():
             "exhaustive": bool(ctx.exhaustive_parts),
             "exhaustive_parts": ctx.exhaustive_parts,
             "distribution": dict(sorted(ctx.distribution.items())[:80]),
+            "coqchk": [{"cmd": c["cmd"], "ok": c["ok"], "axioms_of_whole_context": c["axioms"], "wall_s": c["wall"]} for c in ctx.coqchk],
             "extraction_crosscheck": {"evaluated_in_coq_by_vm_compute": vm["checked"], "agree_with_ocaml": vm["ok"],
                                       "differ": len(vm["bad"]), "not_expressible": vm["skipped"]},
             "translator": ctx.bld.translate_report.get("summary", {}) if ctx.bld else {},
